@@ -221,6 +221,19 @@ fn agrees(exp: &Value, obs: &Value) -> bool {
 
 fn random_io(rng: &mut Rng) -> Vec<Value> {
     let mut io = vec![];
+    if rng.below(6) == 0 {
+        // a trickling transport: a long run of small partial writes inside ONE flush / ready / close call, ended by a
+        // Pending, an error or a transport that takes the rest
+        let k = [1usize, 7, 64, 100, 500][rng.below(5)];
+        for _ in 0..(5 + rng.below(60)) {
+            io.push(json!({"c": "w", "a": "take", "k": k}));
+        }
+        match rng.below(4) {
+            0 => io.push(json!({"c": "w", "a": "pending", "k": 0})),
+            1 => io.push(json!({"c": "w", "a": "err", "k": 0})),
+            _ => {}
+        }
+    }
     for _ in 0..rng.below(5) {
         io.push(match rng.below(12) {
             0 => json!({"c": "w", "a": "pending", "k": 0}),
